@@ -71,6 +71,22 @@ class BoundMethod:
         return f'BoundMethod({self.cref}.{self.fnode.name})'
 
 
+class Closure:
+    """A nested function taken as a value: the definition and the environment it was defined in (by reference)."""
+
+    def __init__(self, fnode, env, module, scopes, self_class, def_class, first_param):
+        self.fnode = fnode
+        self.env = env
+        self.module = module
+        self.scopes = scopes
+        self.self_class = self_class
+        self.def_class = def_class
+        self.first_param = first_param
+
+    def __repr__(self):
+        return f'Closure({self.fnode.name})'
+
+
 class World:
     """State that outlives one interpreted call: module-level mutable objects, names rebound through `global`,
     class attributes assigned at run time. Rules that interpret two calls in a row hand the same World to both."""
@@ -346,10 +362,9 @@ class Interp:
             finally:
                 # the finally clause runs on every way out (fall through, return, break, continue, exception)
                 self.block(s.finalbody)
-        elif isinstance(s, ast.FunctionDef) and not s.decorator_list and self.scopes \
-                and any(n_ is s for sc in self.scopes for n_ in ast.walk(sc)):
-            # definition of a local helper: nothing happens now; calls of it are inlined as closures (see call())
-            pass
+        elif isinstance(s, ast.FunctionDef) and all(self._transparent_decorator(d) for d in s.decorator_list):
+            # definition of a local function: a closure over the current environment
+            self.env[s.name] = Closure(s, self.env, self.m, list(self.scopes), self.self_class, self.def_class, self.first_param)
         elif isinstance(s, ast.Global):
             self.global_names.update(s.names)
         elif isinstance(s, ast.Delete):
@@ -614,11 +629,33 @@ class Interp:
             for v in n.values:
                 if isinstance(v, ast.Constant):
                     parts.append(str(v.value))
-                elif isinstance(v, ast.FormattedValue) and v.format_spec is None and v.conversion == -1:
+                elif isinstance(v, ast.FormattedValue):
                     val = self._safe_ev(v.value)
-                    if isinstance(val, (Opaque, Ref, Rec, PyModel)):
+                    if isinstance(val, Rec) and isinstance(val.f.get('cls'), str):
+                        found, res = self._dunder(val, '__repr__' if v.conversion == 114 else '__str__')
+                        if not found or not isinstance(res, str):
+                            return Opaque('fstring')
+                        val = res
+                        conv = -1
+                    else:
+                        conv = v.conversion
+                    if isinstance(val, (Opaque, Ref, Rec, PyModel, LambdaVal, BoundMethod)):
                         return Opaque('fstring')
-                    parts.append(str(val))
+                    spec = ''
+                    if v.format_spec is not None:
+                        spec = self.ev(v.format_spec)
+                        if not isinstance(spec, str):
+                            return Opaque('fstring')
+                    if conv == 114:
+                        val = repr(val)
+                    elif conv == 115:
+                        val = str(val)
+                    elif conv == 97:
+                        val = ascii(val)
+                    try:
+                        parts.append(format(val, spec))
+                    except (ValueError, TypeError) as exc:
+                        raise ExcRaised(Ref(f'builtin:{type(exc).__name__}'))
                 else:
                     return Opaque('fstring')
             return ''.join(parts)
@@ -742,7 +779,7 @@ class Interp:
             callee = self._safe_ev(fn)
             if isinstance(callee, Ref):
                 ref = callee.ref
-            elif isinstance(callee, (BoundMethod, LambdaVal)) or (isinstance(callee, PyModel) and callable(callee)):
+            elif isinstance(callee, (BoundMethod, LambdaVal, Closure)) or (isinstance(callee, PyModel) and callable(callee)):
                 return self.invoke(callee, args, kwargs)
         elif isinstance(fn, ast.Attribute):
             callee = self._safe_ev(fn)
@@ -756,8 +793,14 @@ class Interp:
                 ref = bound.ref
             elif callable(bound) and isinstance(bound, PyModel):
                 return bound(*args, **kwargs)
-            elif isinstance(bound, BoundMethod):
+            elif isinstance(bound, (BoundMethod, Closure)):
                 return self.invoke(bound, args, kwargs)
+            elif callable(bound) and isinstance(getattr(bound, '__self__', None), _PURE_TYPES) \
+                    and all(_concrete(a_) for a_ in args) and all(_concrete(v_) for v_ in kwargs.values()):
+                try:
+                    return bound(*args, **kwargs)
+                except Exception as exc:
+                    raise ExcRaised(Ref(f'builtin:{type(exc).__name__}'))
         elif isinstance(fn, (ast.Name, ast.Attribute)):
             ref = self.a.res.resolve(fn, self.m)
         for key in (ref, text):
@@ -938,6 +981,14 @@ class Interp:
             return sub.ev(callee.node.body)
         if isinstance(callee, PyModel) and callable(callee):
             return callee(*args, **kwargs)
+        if isinstance(callee, Closure):
+            saved = (self.env, self.scopes, self.m, self.self_class, self.def_class, self.first_param)
+            self.env, self.scopes, self.m = callee.env, callee.scopes, callee.module
+            self.self_class, self.def_class, self.first_param = callee.self_class, callee.def_class, callee.first_param
+            try:
+                return self._inline(callee.module, callee.fnode, list(args), kwargs, closure=True)
+            finally:
+                self.env, self.scopes, self.m, self.self_class, self.def_class, self.first_param = saved
         if isinstance(callee, BoundMethod):
             key_ = f'{callee.cref}.{callee.fnode.name}'
             if key_ in self.call_models:
@@ -1558,3 +1609,9 @@ class Interp:
             return True, obj(*args, **kwargs)
         except Exception as exc:
             raise ExcRaised(Ref(f'builtin:{type(exc).__name__}'))
+
+    def _transparent_decorator(self, d):
+        """Decorators that do not change what a local function does: functools.wraps(...)."""
+        t = d.func if isinstance(d, ast.Call) else d
+        r = self.a.res.resolve(t, self.m) if isinstance(t, (ast.Name, ast.Attribute)) else None
+        return r in ('ext:functools.wraps',)
